@@ -1365,7 +1365,7 @@ def pfmOracle (s : Pfm3) (ms : List (Manifold3 Float)) : String :=
         let coneEdgeOn := (s.kind == 6 && Float.abs m.n1.y ≤ 1.0e-9) || (s.kind == 5 && Float.abs m.n2.y ≤ 1.0e-9)
         match s.oneshot[i]? with
         | some (true, d) =>
-          if d == 0.0 then some s!"exact-touching-gjk-epa-degenerate call={i} {r}"
+          if Float.abs d ≤ 1.0e-12 then some s!"exact-touching-gjk-epa-degenerate call={i} {r}"
           else if coneEdgeOn then some s!"cone-cap-seen-edge-on call={i} {r}" else some s!"call={i} {r}"
         | _ => if coneEdgeOn then some s!"cone-cap-seen-edge-on call={i} {r}" else some s!"call={i} {r}"
       | none => go (i + 1) ps ms
@@ -1398,7 +1398,8 @@ def pfmgOracle (g : PfmG) (m : Manifold3 Float) : String :=
     if m.points.length > 3 then "fail more-than-three-contacts" else
     match manifoldOracle3 (pfmShapes g.s) g.pos12 g.s.pred m none 0 false with
     | some r =>
-      if fv3 p1 == fv3 p21 then s!"fail exact-touching-gjk-epa-degenerate {r}" else s!"fail {r}"
+      -- GJK's witnesses coincide (up to an ulp): the shapes touch at exactly zero distance, no direction to return
+      if ((q3 p1).sub (q3 p21)).normSq ≤ 1 / 100000000000000000000 then s!"fail exact-touching-gjk-epa-degenerate {r}" else s!"fail {r}"
     | none => "pass"
 
 def handler (fn : String) : Option Handler :=
